@@ -68,7 +68,9 @@ def run_tlc(module, cfg, workers=4, timeout=900, env=None, simulate=None, depth=
             f.write(cfg_text)
     else:
         cfgpath = os.path.join(SPEC, cfg)
-    jopts = ["-XX:+UseParallelGC", "-Xmx" + xmx]
+    # (TLC leaves an empty tlc-<n> directory in the JVM's temporary directory on every run: keep it inside the metadir,
+    # which is removed below, so that nothing accumulates under /tmp)
+    jopts = ["-XX:+UseParallelGC", "-Xmx" + xmx, "-Djava.io.tmpdir=" + mkdir(os.path.join(meta, "tmp"))]
     if dfs:
         jopts.append("-Dtlc2.tool.queue.IStateQueue=StateDeque")
     cmd = ["java"] + jopts + ["-cp", JAR + ":" + CM, "tlc2.TLC", "-workers", str(workers), "-metadir", meta,
